@@ -35,8 +35,8 @@ pub fn budget(prop: &str, tier: Tier) -> u64 {
     let q = match prop {
         "C02" | "C03" | "C05" => 20_000,
         "C06" | "C07" | "C09" => 6_000,
-        "C08" => 5_000,
-        "C04" => 6_000,
+        "C08" => 4_000,
+        "C04" => 4_800,
         "C11" => 20_000,
         "C01" => 24_000,
         "C18" => 20_000,
